@@ -150,7 +150,7 @@ def h_equals(ctx: Ctx) -> None:
     ctx.rule(H2b, 'comparisons of name / dtype / class are conjoined with compare_name / compare_dtype / compare_class', floor=12)
     ctx.rule(H3, 'nested equals calls compare the same component of both operands and forward every option the '
              'callee accepts, by the same name, unmodified', floor=9)
-    ctx.rule(H4, 'equals returns True early only under id(other) == id(self)', floor=7)
+    ctx.rule(H4, 'equals returns True early only under id(other) == id(self) (possibly conjoined with the method\'s own Boolean options)', floor=7)
     H6 = 'H6.two-sided-memo'
     ctx.rule(H6, 'a set/dict local of an equals method that is consulted with `in` to skip a comparison is keyed on an expression rooted in both '
              'self and other', floor=1)
@@ -199,8 +199,12 @@ def h_equals(ctx: Ctx) -> None:
                 id_tests = [t for t, pol in tests if 'id(' in norm(t)]
                 if id_tests:
                     t = id_tests[0]
-                    c = _canon(t)
-                    good = c in ('(id(other) Eq id(self))', '(other Is self)')
+                    # the identity test itself, possibly conjoined with the method's own Boolean options (`skipna and id(other) == id(self)`)
+                    conj = list(t.values) if isinstance(t, ast.BoolOp) and isinstance(t.op, ast.And) else [t]
+                    ident = [x for x in conj if 'id(' in norm(x) or isinstance(x, ast.Compare)]
+                    rest = [x for x in conj if x not in ident]
+                    good = len(ident) == 1 and _canon(ident[0]) in ('(id(other) Eq id(self))', '(other Is self)') \
+                        and all(isinstance(x, ast.Name) and x.id in f.params for x in rest)
                     (ctx.ok if good else ctx.bad)(H4, f, t, f'identity shortcut test `{norm(t)}`', key='identity')
         # assignments of comparison results (eq = self.values == other.values)
         for n in walk_local(f.node):
